@@ -5,6 +5,7 @@ import itertools
 from fractions import Fraction
 
 import numpy as np
+from proto import proj_close_nn
 
 from geolib import Gen, Obj, call_impl, compare_obj, compare_mask, stack, pluecker, G
 from proto import ET, run_driver
@@ -185,3 +186,60 @@ def parse_request(line):
             objs[i] = Obj(k, dec_tens(tt), int(nf), c == "1")
         args.append(objs[i])
     return toks[0], args
+
+
+def l3_shape_stream(ctx, n, prefix):
+    """join / meet of coplanar lines of 3-space for the shape patterns the generic stream visits rarely: a single line FIRST against
+    a collection, (m,) against (k, m), two collection axes with a second axis longer than 1 — value at every position against the
+    single calls, and the exact dependence mask when one position holds equal lines"""
+    import geometer as g
+    rng = ctx.rng
+    for k in range(n):
+        o = np.array([float(rng.randint(-2, 2)) for _ in range(3)])
+        def line_through_o():
+            while True:
+                d = np.array([float(rng.randint(-3, 3)) for _ in range(3)])
+                if d.any():
+                    return g.Line(g.Point(*o), g.Point(*(o + d)))
+        pattern = rng.choice(["single-first", "m-vs-km", "km-vs-km", "single-first-dependent"])
+        kk, m = rng.randint(2, 3), rng.randint(2, 4)
+        op = rng.choice(["join", "meet"])
+        f = g.join if op == "join" else g.meet
+        if pattern.startswith("single-first"):
+            a = [line_through_o()]
+            b = [line_through_o() for _ in range(m)]
+            if pattern.endswith("dependent"):
+                b[rng.randrange(m)] = g.Line(np.asarray(a[0].array) * 2.0)
+            A, B = a[0], g.LineCollection(np.stack([np.asarray(x.array) for x in b]))
+            pairs, shape = [(a[0], x) for x in b], (m,)
+        elif pattern == "m-vs-km":
+            a = [line_through_o() for _ in range(m)]
+            b = [line_through_o() for _ in range(kk * m)]
+            A = g.LineCollection(np.stack([np.asarray(x.array) for x in a]))
+            B = g.LineCollection(np.stack([np.asarray(x.array) for x in b]).reshape(kk, m, 4, 4))
+            pairs, shape = [(a[j % m], b[j]) for j in range(kk * m)], (kk, m)
+        else:
+            a = [line_through_o() for _ in range(kk * m)]
+            b = [line_through_o() for _ in range(kk * m)]
+            A = g.LineCollection(np.stack([np.asarray(x.array) for x in a]).reshape(kk, m, 4, 4))
+            B = g.LineCollection(np.stack([np.asarray(x.array) for x in b]).reshape(kk, m, 4, 4))
+            pairs, shape = list(zip(a, b)), (kk, m)
+        singles = [call_impl(f, x, y) for x, y in pairs]
+        dep = np.array([s_[0] == "err" and s_[1] == "LinearDependence" for s_ in singles]).reshape(shape)
+        desc = f"{op} of coplanar lines of space through {o.tolist()}, pattern {pattern}, shape {shape}: " \
+               f"{[np.round(np.asarray(x.array), 3).tolist() for x in (a[:2] + b[:2])]}"
+        ctx.case(desc)
+        ctx.count(f"l3-shape:{pattern}:{op}")
+        r = call_impl(f, A, B)
+        if dep.any():
+            ok = r[0] == "err" and r[1] == "LinearDependence" and np.array_equal(np.asarray(getattr(r[2], "dependent_values", None)), dep)
+            if not ok:
+                ctx.disagree(f"{prefix}:l3-shape:{pattern}:mask", desc, dep.tolist(), r[1:3] if r[0] != "ok" else "no error", replay=[desc])
+            continue
+        ok = r[0] == "ok" and tuple(np.asarray(r[1].array).shape[:len(shape)]) == shape
+        if ok:
+            arr = np.asarray(r[1].array).reshape((len(pairs),) + np.asarray(r[1].array).shape[len(shape):])
+            ok = all(s_[0] == "ok" and proj_close_nn(arr[j], np.asarray(s_[1].array), 1e-8) for j, s_ in enumerate(singles))
+        if not ok:
+            ctx.disagree(f"{prefix}:l3-shape:{pattern}:value", desc, "the single-pair results at every position",
+                         r[1:3] if r[0] != "ok" else np.asarray(r[1].array).shape, replay=[desc])
